@@ -24,6 +24,7 @@ jax.config.update("jax_enable_x64", True)
 Z3_TIMEOUT = float(os.environ.get("VC_Z3_TIMEOUT", "20"))
 CVC5_TIMEOUT = float(os.environ.get("VC_CVC5_TIMEOUT", "20"))
 USE_CVC5 = os.environ.get("VC_USE_CVC5", "1") == "1"
+CVC5_MODE = os.environ.get("VC_CVC5_MODE", "fallback")  # "always" in the thorough tier
 
 
 # --------------------------------------------------------------------------------------
@@ -68,10 +69,11 @@ def define(name, out_leaf, expr):
 class Instance:
     name: str
     make: Callable  # rng -> (args tuple, kwargs dict) with concrete arrays
-    positive: Callable = lambda path: False  # keypath string -> bool (entries known > 0)
-    nonneg: Callable = lambda path: False
-    symbolic_ints: Callable = lambda path: False
-    structure: Callable | None = None  # (path, index tuple) -> None | Fraction  (fixed entries)
+    positive: Callable = lambda args, kwargs: []  # -> list of leaf arrays whose entries are > 0
+    nonneg: Callable = lambda args, kwargs: []
+    symbolic_ints: Callable = lambda args, kwargs: []  # integer leaves to be treated symbolically
+    names: Callable = lambda args, kwargs: {}  # -> {id(leaf): readable name}
+    structure: Callable | None = None  # (name, index tuple) -> None | Fraction  (fixed entries)
     meta: dict = field(default_factory=dict)
 
 
@@ -378,16 +380,22 @@ def symbolic_inputs(tree, inst: Instance):
     """Replace every float array leaf by fresh symbols; returns (sym leaves, input sid arrays)."""
     leaves, treedef, arr_idx = split_leaves(tree)
     paths = keypaths(tree)
+    args, kwargs = tree
+    pos_ids = {id(x) for x in inst.positive(args, kwargs)}
+    nn_ids = {id(x) for x in inst.nonneg(args, kwargs)}
+    int_ids = {id(x) for x in inst.symbolic_ints(args, kwargs)}
+    names = inst.names(args, kwargs)
     sym = []
     sids_all = []
     for i in arr_idx:
-        a = np.asarray(leaves[i])
-        path = paths[i]
-        if a.dtype.kind == "f" or (a.dtype.kind in "iu" and inst.symbolic_ints(path)):
+        leaf = leaves[i]
+        a = np.asarray(leaf)
+        path = names.get(id(leaf), paths[i])
+        if a.dtype.kind == "f" or (a.dtype.kind in "iu" and id(leaf) in int_ids):
             arr = np.empty(a.shape, dtype=object)
             sids = np.full(a.shape, -1, dtype=np.int64)
-            pos = inst.positive(path)
-            nn = inst.nonneg(path)
+            pos = id(leaf) in pos_ids
+            nn = id(leaf) in nn_ids
             for ix in np.ndindex(*a.shape):
                 fixed = inst.structure(path, ix) if inst.structure else None
                 if fixed is not None:
@@ -469,7 +477,7 @@ def _verify(contract, inst, res, seed, tier):
         full = [next(it) if s is None else s for s in out_static]
         result = jax.tree_util.tree_unflatten(out_tree, full)
         cl = contract.ensures(result, *a, **k)
-        return [c.value for c in cl], [(c.name, c.kind) for c in cl]
+        return [(jnp.asarray(c.lhs) - c.value) if c.kind == "def" else c.value for c in cl], [(c.name, c.kind) for c in cl]
 
     n_before = len(ctx.obligations)
     vals, meta = _trace_eval(ctx, ens, avals + out_avals, list(sym) + list(outs))
@@ -668,41 +676,56 @@ def discharge(ctx: interp.Ctx, contract: Contract, res: Result, numenv: NumEnv, 
     proven_lemmas = []
     res.assumptions_used = len(ctx.assumptions)
     backend = res.by_backend
-    groups: dict = {}
+    identities = []  # (ob, how, goal V, used [(hyp, mult)])
+    fallback_budget = [FALLBACK_BUDGET]
     for ob in ctx.obligations:
         side = ob.get("side")
         if side in ("kernel-precondition", "callee-precondition") and any(s in ob["name"] for s in contract.inherits):
             res.inherited.append(ob["name"])
             continue
         res.obligations += 1
-        ok, how, detail = _discharge_one(ob, ctx, eq_assm + atom_h + proven_lemmas, bool_assm, res)
+        ok, how, detail = _discharge_one(ob, ctx, eq_assm + atom_h + proven_lemmas, bool_assm, res, identities, fallback_budget)
         if ok:
             res.discharged += 1
-            backend[how] = backend.get(how, 0) + 1
+            if how is not None:
+                backend[how] = backend.get(how, 0) + 1
             if ob["kind"] == "eq" and contract.lemma_order and not ob["path"] and not ob["goal"].p.is_zero():
                 proven_lemmas.append({"name": "lemma:" + ob["name"], "kind": "eq", "fact": ob["goal"], "path": [], "origin": "proven"})
             if len(res.samples) < 3 and detail:
                 res.samples.append(detail)
         else:
             entry = {"obligation": ob["name"], "kind": ob["kind"], "reason": how, "detail": detail}
-            # triage numerically
             tri = triage(ob, numenv, seed)
             entry.update(tri)
             if tri.get("holds_numerically"):
                 res.undecided.append(entry)
             else:
                 res.failed.append(entry)
+    # one batched solver query re-checks every certificate of this function instance
+    if identities:
+        ok, det = _smt_identities(identities, res)
+        for ob, how, g, used in identities:
+            key = how + ("+smt" if ok else "")
+            backend[key] = backend.get(key, 0) + 1
+        det = dict(det)
+        det["batched_identities"] = len(identities)
+        det["first_obligation"] = identities[0][0]["name"]
+        res.samples.insert(0, det)
+        if det.get("z3") == "sat" or det.get("cvc5") == "sat":
+            # the solvers refute an identity the normaliser accepted: checker error, never a pass
+            res.error = f"checker-error: solver refutes a certificate identity ({det.get('z3')}, {det.get('cvc5')})"
 
 
+FALLBACK_BUDGET = float(os.environ.get("VC_FALLBACK_BUDGET", "20"))
 _PROVERS: dict = {}
 
 
-def _discharge_one(ob, ctx, eq_assm, bool_assm, res):
+def _discharge_one(ob, ctx, eq_assm, bool_assm, res, identities, fallback_budget):
     if ob["kind"] == "eq":
         g: V = ob["goal"]
         if g.p.is_zero():
-            ok, det = _smt_identity(g, [], [], res)
-            return True, "nf-identity" + ("+smt" if ok else ""), det
+            identities.append((ob, "nf-identity", g, []))
+            return True, None, None
         hyps = [a for a in eq_assm if _implied(a["path"], ob["path"]) and a["fact"] is not g]
         key = tuple(id(a) for a in hyps)
         prover = _PROVERS.get(key)
@@ -713,12 +736,16 @@ def _discharge_one(ob, ctx, eq_assm, bool_assm, res):
         okc, mult, rem, strategy = prover.prove(g.p)
         if okc:
             used = [(hyps[i], m) for i, m in mult.items()]
-            ok, det = _smt_identity(g, used, [], res)
-            return True, f"certificate{strategy}" + ("+smt" if ok else ""), det
-        # fall back to SMT with all hypotheses (small scalar goals)
-        ok, det = _smt_entail(B("eq", g), ob, eq_assm, bool_assm, res)
-        if ok:
-            return True, "smt", det
+            identities.append((ob, f"certificate{strategy}", g, used))
+            return True, None, None
+        # fall back to SMT with all hypotheses (small scalar goals), within a per-function budget
+        det = {"skipped": "fallback budget exhausted"}
+        if fallback_budget[0] > 0:
+            t0 = time.time()
+            ok, det = _smt_entail(B("eq", g), ob, eq_assm, bool_assm, res, timeout=min(5.0, fallback_budget[0]))
+            fallback_budget[0] -= time.time() - t0
+            if ok:
+                return True, "smt", det
         return False, "no-certificate", {"remainder_terms": len(rem.t), "remainder": repr(rem)[:400], "smt": det}
     else:
         b: B = ob["goal"]
@@ -730,6 +757,26 @@ def _discharge_one(ob, ctx, eq_assm, bool_assm, res):
         if ok:
             return True, "smt", det
         return False, "smt-not-unsat", det
+
+
+def _smt_identities(identities, res):
+    em = smt.Emitter()
+    parts = []
+    for ob, how, g, used in identities:
+        gt = em.need_v(g)
+        terms = []
+        for hyp, m in used:
+            ht = em.need_v(hyp["fact"])
+            mt = em.need_poly(m)
+            terms.append(f"(* {mt} {ht})")
+        total = f"(+ {' '.join(terms)})" if len(terms) > 1 else (terms[0] if terms else "0.0")
+        parts.append(f"(not (= {gt} {total}))")
+    body = parts[0] if len(parts) == 1 else "(or " + " ".join(parts) + ")"
+    text = em.text([f"(assert {body})"])
+    return _run_solvers(text, res, timeout=IDENTITY_TIMEOUT)
+
+
+IDENTITY_TIMEOUT = float(os.environ.get("VC_IDENTITY_TIMEOUT", "10"))
 
 
 def _smt_identity(g: V, used, extra, res):
@@ -746,15 +793,15 @@ def _smt_identity(g: V, used, extra, res):
     return _run_solvers(text, res)
 
 
-def _run_solvers(text, res, want_model=False):
-    r, dt, model = smt.run_z3(text, Z3_TIMEOUT, want_model=want_model)
+def _run_solvers(text, res, want_model=False, timeout=None):
+    r, dt, model = smt.run_z3(text, timeout or Z3_TIMEOUT, want_model=want_model)
     res.solver_s["z3"] = res.solver_s.get("z3", 0.0) + dt
     det = {"z3": r, "z3_s": round(dt, 3)}
     if r == "sat" and want_model:
         det["model"] = model
     ok = r == "unsat"
-    if USE_CVC5 and r != "sat":
-        r2, dt2, _ = smt.run_cvc5(text, CVC5_TIMEOUT)
+    if USE_CVC5 and r != "sat" and (CVC5_MODE == "always" or r != "unsat"):
+        r2, dt2, _ = smt.run_cvc5(text, timeout or CVC5_TIMEOUT)
         res.solver_s["cvc5"] = res.solver_s.get("cvc5", 0.0) + dt2
         det["cvc5"] = r2
         det["cvc5_s"] = round(dt2, 3)
@@ -768,7 +815,7 @@ def _run_solvers(text, res, want_model=False):
     return ok, det
 
 
-def _smt_entail(goal: B, ob, eq_assm, bool_assm, res, want_model=True):
+def _smt_entail(goal: B, ob, eq_assm, bool_assm, res, want_model=True, timeout=None):
     em = smt.Emitter()
     asserts = []
     for a in eq_assm:
@@ -787,7 +834,7 @@ def _smt_entail(goal: B, ob, eq_assm, bool_assm, res, want_model=True):
         asserts.append(f"(assert {em.bool_term(b)}) ; path")
     asserts.append(f"(assert (not {em.bool_term(goal)})) ; goal {ob['name']}")
     text = em.text(asserts)
-    return _run_solvers(text, res, want_model=want_model)
+    return _run_solvers(text, res, want_model=want_model, timeout=timeout)
 
 
 def _path_term(em, path):
@@ -835,3 +882,96 @@ def Poly_term(m, env):
     for s, e in m:
         v *= env[s] ** e
     return v
+
+
+# --------------------------------------------------------------------------------------
+# native confirmation / replay of a failed obligation
+# --------------------------------------------------------------------------------------
+
+
+def _clause_of(obligation_name):
+    nm = obligation_name
+    if nm.startswith("ensures."):
+        nm = nm[len("ensures.") :]
+    return nm.split("[")[0]
+
+
+def native_clauses(contract: Contract, inst: Instance, seed):
+    owner, attr, target = contract.resolve()
+    fn = contract.wrap(target) if contract.wrap else target
+    rng = np.random.default_rng(seed)
+    args, kwargs = inst.make(rng)
+    with _native_mode():
+        out = fn(*args, **kwargs)
+        cl = contract.ensures(out, *args, **kwargs)
+    mag = 1.0
+    for l in jax.tree_util.tree_leaves((out, args, kwargs)):
+        if _is_arraylike(l) and np.asarray(l).dtype.kind == "f" and np.asarray(l).size:
+            mag = max(mag, float(np.max(np.abs(np.asarray(l)))))
+    return [(c.name, c.kind, np.asarray((jnp.asarray(c.lhs) - c.value) if c.kind == "def" else c.value)) for c in cl], mag, (args, kwargs), out
+
+
+def confirm_native(contract: Contract, inst: Instance, failure: dict, seed, npoints=8):
+    """Run the real, unpatched function on concrete inputs and evaluate the failed clause natively."""
+    if not failure["obligation"].startswith("ensures."):
+        return {"violated": False, "note": "call-site / kernel precondition: no native clause to evaluate"}
+    cname = _clause_of(failure["obligation"])
+    seeds = []
+    w = failure.get("witness")
+    if w and "seed" in w:
+        seeds.append(int(w["seed"]))
+    seeds += [seed + 101 * (k + 1) for k in range(npoints)]
+    for s in seeds:
+        clauses, mag, (args, kwargs), out = native_clauses(contract, inst, s)
+        for nm, kind, val in clauses:
+            if nm != cname:
+                continue
+            tol = contract.native_tol * mag * mag
+            if kind in ("eq", "def"):
+                bad = float(np.max(np.abs(val))) if val.size else 0.0
+                viol = bad > tol
+            elif kind == "ge":
+                bad = float(-np.min(val)) if val.size else 0.0
+                viol = bad > tol
+            elif kind == "gt":
+                bad = float(-np.min(val)) if val.size else 0.0
+                viol = not np.all(val > 0)
+            else:
+                bad = float(np.sum(~val.astype(bool)))
+                viol = bad > 0
+            if viol:
+                leaves = [np.asarray(l).tolist() for l in jax.tree_util.tree_leaves((args, kwargs)) if _is_arraylike(l)]
+                return {
+                    "violated": True,
+                    "clause": nm,
+                    "kind": kind,
+                    "input_seed": s,
+                    "inputs": leaves,
+                    "clause_value(lhs-rhs)": val.tolist(),
+                    "max_violation": bad,
+                    "tolerance": tol,
+                    "outputs": [np.asarray(l).tolist() for l in jax.tree_util.tree_leaves(out) if _is_arraylike(l)],
+                }
+    return {"violated": False, "points_tried": len(seeds)}
+
+
+def replay(path):
+    import importlib
+
+    data = json.load(open(path))
+    pid = data["property"]
+    mod = importlib.import_module(f"props.{pid}")
+    if hasattr(mod, "replay") and data.get("contract", "").startswith("extra:"):
+        return mod.replay(data)
+    contract = {c.name: c for c in mod.contracts()}[data["contract"]]
+    inst = {i.name: i for i in contract.instances(data.get("tier", "quick"))}[data["instance"]]
+    print(f"replaying {data['contract']} [{data['instance']}] obligation {data['failed_obligation']}")
+    nat = data.get("native_replay") or {}
+    seed = nat.get("input_seed", data.get("seed", 0))
+    out = confirm_native(contract, inst, {"obligation": data["failed_obligation"], "witness": {"seed": seed}}, data.get("seed", 0))
+    print(json.dumps({k: v for k, v in out.items() if k != "inputs"}, indent=1, default=str)[:3000])
+    if out.get("violated"):
+        print(f"VIOLATION property={pid} replay={path}")
+        return 1
+    print("no failing input reproduced natively (the obligation failed deductively; see verifier_output in the replay file)")
+    return 1 if data.get("failed_obligation") else 0
